@@ -148,6 +148,7 @@ fn w_common() -> Vec<(K, u32)> {
         (K::Oper, 1),
         (K::Lusers, 1),
         (K::Ping, 1),
+        (K::Opaque, 1),
     ]
 }
 
